@@ -53,7 +53,7 @@ BOUNDS = [(50.0, 100.0, 6000.0), (200.0, 1000.0, 3500.0), (298.15, 4500.0 / 7.0,
 BREAKS9 = [[50.0, 100.0, 1000.0, 3000.0, 6000.0], [200.0, 1000.0, 2000.0, 3000.0, 3500.0],
            [298.15, 4500.0 / 7.0, 800.0, 900.0, 1000.0], [300.0, 300.0000001, 1000.0, 2500.0, 6000.0]]
 GAP9 = [[200.0, 1000.0], [1200.0, 6000.0]]        # two segments with a hole in between
-UNITS_Q = ['J/mol/K', 'cal/mol/K', 'eV/K', 'L atm/mol/K']
+UNITS_Q = ['J/mol/K', 'kJ/mol/K', 'cal/mol/K', 'kcal/mol/K', 'eV/K', 'L atm/mol/K']   # one per prefix/energy family
 UNITS_T = ['J/mol/K', 'kJ/mol/K', 'L kPa/mol/K', 'cm3 kPa/mol/K', 'm3 Pa/mol/K', 'cm3 MPa/mol/K',
            'm3 bar/mol/K', 'L bar/mol/K', 'L torr/mol/K', 'cal/mol/K', 'kcal/mol/K', 'L atm/mol/K',
            'cm3 atm/mol/K', 'eV/K', 'Eh/K', 'Ha/K']
